@@ -133,7 +133,8 @@ bool MaxSize::writeCheck( const detail::LogMsg&, const std::string& msg_text)
 void MaxSize::written( const detail::LogMsg&, const std::string& msg_text)
 {
 
-   mCurrentFilesize += msg_text.length();
+   // the line terminator is written into the file too
+   mCurrentFilesize += msg_text.length() + 1;
 
 } // MaxSize::written
 
